@@ -76,7 +76,11 @@ def build_world(cuqi, graph, variant=0):
         L = add("L", Lognormal(lambda z: z, cov, name="L"))
         add("L0", Lognormal(np.array([0.5, -0.5]), cov, name="L0"))
         add("J", JointDistribution(z, L))
-        dims.update(z=2, L=2, L0=2)
+        # both parameters conditional (the re-synchronisation has two things to bring up to date)
+        A2 = LinearModel(_mat([[1, 2], [0.5, 1]]))
+        A2._non_default_args = ["z"]
+        add("L2", Lognormal(A2, lambda w: w * np.eye(2), name="L2"))
+        dims.update(z=2, L=2, L0=2, L2=2, w=1)
     elif graph == "reggauss":
         A = add("A", LinearModel(_mat([[1, 0.5], [0, 1], [2, -1]])))
         s = add("s", Gamma(1, 1, name="s"))
@@ -93,7 +97,9 @@ def build_world(cuqi, graph, variant=0):
         add("gm", Gaussian(cov=M, geometry=2, name="gm"))            # conditional on its mean
         add("gg", Gaussian(lambda m: m, lambda v: v, geometry=2, name="gg"))
         add("ga", Gamma(np.array([1.0, 2.0]), 0.5, name="ga"))
-        dims.update(gc=2, gp=2, gs=2, gq=2, gm=2, gg=2, ga=2, mean=2, m=2, v=1)
+        # a callable with three arguments: staged conditioning goes through functools.partial objects
+        add("g3", Gaussian(lambda a, b, c: a + b * c, 1, geometry=2, name="g3"))
+        dims.update(gc=2, gp=2, gs=2, gq=2, gm=2, gg=2, ga=2, mean=2, m=2, v=1, g3=2, a=2, b=2, c=2)
     elif graph == "nested":
         s = add("s", Gaussian(np.zeros(1), 1, name="s"))
         x = add("x", Gaussian(np.zeros(2), lambda s: np.exp(s), name="x"))
@@ -125,7 +131,9 @@ def build_world(cuqi, graph, variant=0):
         objs += [("t", t), ("r", r)]
         J = JointDistribution(t, r)
         objs.append(("J", J))
-        dims.update(t=2, r=1)
+        u = Gaussian(np.zeros(2), lambda q: q)       # never looked at by a joint: its name is inferred at first use
+        objs.append(("u", u))
+        dims.update(t=2, r=1, u=2, q=1)
     else:
         raise ValueError(graph)
     return objs, dims
@@ -219,6 +227,8 @@ class World:
         """Execute one op; returns ("obj", object) | ("val", canonical value)."""
         cuqi = self.cuqi
         kind = op["op"]
+        if self.graph == "unnamed":
+            t, r, J, u = self.live[:4]      # noqa: F841 -- the Python variable names cuqi's name inference will find
         obj = self.live[op["i"]] if "i" in op else None
         if kind == "cond":
             _r = _try(lambda: obj(**self.kw(op["names"], op["k"])))
@@ -315,6 +325,8 @@ class World:
     def fingerprint(self, obj):
         """behavioural fingerprint of one live object (DESIGN: parameter names, conditioning variables, logd/gradient at
         probe points, seeded samples, geometry variable names)."""
+        if self.graph == "unnamed":
+            t, r, J, u = self.live[:4]      # noqa: F841 -- visible to cuqi's stack-based name inference
         fp = {"type": type(obj).__name__}
         Model = self.cuqi.model.Model
         if isinstance(obj, Model):
@@ -325,7 +337,9 @@ class World:
             if hasattr(obj, "adjoint"):
                 fp["adj"] = _try(lambda: obj.adjoint(val_for("y", obj.range_dim, 0)))
             return fp
-        fp["name"] = _try(lambda: obj.name) if ("_name" in vars(obj) or "distribution" in vars(obj)) and fixed_name(obj) else "<n/a>"
+        # in the `unnamed` graph the originals are visible to the stack inspection under their labels (locals above), so reading
+        # a name is deterministic there; elsewhere names that would be inferred from the stack are not read
+        fp["name"] = _try(lambda: obj.name) if ("_name" in vars(obj) or "distribution" in vars(obj)) and (fixed_name(obj) or self.graph == "unnamed") else "<n/a>"
         names = _try(lambda: self.param_names(obj))
         fp["params"] = names
         if hasattr(obj, "get_conditioning_variables"):
@@ -352,7 +366,10 @@ class World:
     def _geom(self, g):
         if isinstance(g, list):
             return [self._geom(x) for x in g]
-        return [type(g).__name__, list(g.par_shape) if g.par_shape is not None else None, [str(v) for v in g.variables][:3]]
+        # variable names of a geometry follow the distribution's name; where names are inferred lazily from the stack (graph
+        # `unnamed`) a copy made before the inference keeps showing the default names -- outside the model, not compared there
+        return [type(g).__name__, list(g.par_shape) if g.par_shape is not None else None,
+                [str(v) for v in g.variables][:3] if self.graph != "unnamed" else None]
 
 
 def needed_ops(ops, t):
@@ -916,6 +933,29 @@ def frame_expr(st, inline=False):
     return "%s inplace_constant %s %s" % (fn, cheap(hb), cheap(ha)), ("/lazy-geometry" if lazy else "")
 
 
+def names_kept(cuqi, plan, W):
+    """direct oracle of the clause `a conditioned copy keeps the random-variable name of its original` (evaluated after the
+    interleaving: reading .name may infer and cache names)"""
+    JD = cuqi.distribution.JointDistribution
+    idx = plan["n0"]
+    for op in plan["ops"]:
+        if not op.get("makes"):
+            continue
+        res = W.live[idx]
+        idx += 1
+        if op["op"] not in ("cond", "condpos", "tolik") or "i" not in op:
+            continue
+        src = W.live[op["i"]]
+        if isinstance(src, JD) or isinstance(res, JD) or not hasattr(src, "name") or not hasattr(res, "name"):
+            continue
+        if W.graph == "unnamed":
+            t, r, J, u = W.live[:4]      # noqa: F841
+        n_src, n_res = _try(lambda: src.name), _try(lambda: res.name)
+        if isinstance(n_src, str) and n_res != n_src:
+            return "object made by %s from an object named %r is named %r" % (json.dumps(op), n_src, n_res if not isinstance(n_res, Exception) else repr(n_res))
+    return None
+
+
 def cases_for_plan(cuqi, plan, with_heap=True):
     """All cases of one interleaving: one TWIN case (behavioural oracle), FRAME + STEP cases per operation."""
     cases = []
@@ -927,6 +967,10 @@ def cases_for_plan(cuqi, plan, with_heap=True):
         sig, culprit = classify_failure(cuqi, plan, tgt)
         fail = "sig=%s; value %s differs from the value obtained without the intervening operations: %s; culprit op #%s %s; %d value(s) affected" % (
             sig, tgt, json.dumps(det, default=str)[:500], culprit, json.dumps(plan["ops"][culprit]) if culprit is not None else "?", len(bad))
+    if not fail:
+        nk = names_kept(cuqi, plan, W)
+        if nk:
+            fail, sig = "sig=cond|result-name-differs-from-original; " + nk, "cond|result-name-differs-from-original"
     if not fail and W.mutated_arguments():
         fail, sig = "sig=C11|argument-array-modified-in-place; arrays passed as conditioning / evaluation values were modified: %s" % W.mutated_arguments(), "C11|argument-array-modified-in-place"
     cases.append(Case(expr="true", meta={"kind": "twin", "plan": plan}, cell="twin/" + plan["graph"], kind="DECISION",
@@ -937,6 +981,11 @@ def cases_for_plan(cuqi, plan, with_heap=True):
     for st in steps:
         op = st["op"]
         meta = {"kind": "frame", "plan": {**plan, "ops": plan["ops"][:st["k"] + 1]}, "step": st["k"]}
+        if any(dict(_fields(b_)).get("_name") == "VNone" and dict(_fields(a_)).get("_name", "VNone") != "VNone"
+               for b_, a_ in zip(st["before"], st["after"])):
+            # a name was inferred from the Python stack and cached during this operation: outside every model (DESIGN section 7)
+            cases.append(Case(expr="true", meta=meta, cell="frame/%s/%s/name-inferred-skipped" % (op["op"], st["cls"]), kind="DECISION", trivial=True))
+            continue
         expr, cellx = frame_expr(st)
         cases.append(Case(expr=expr, meta=meta, cell="frame/%s/%s%s" % (op["op"], st["cls"], cellx), kind="DECISION",
                           trivial=(not st["made"] and op["op"] in ("cond", "condpos", "tolik", "apply", "mkjoint"))))
@@ -1047,10 +1096,10 @@ WITNESS_CONST = {"graph": "nested", "variant": 0, "n0": 4, "ops": [
     {"op": "cond", "i": 5, "names": ["w"], "k": 0, "makes": True},
     {"op": "logd", "i": 4, "names": ["x"], "k": 1, "makes": False}]}
 SIG_GEOM = "Distribution.geometry|lazy-default-geometry-cached-on-conditional-original"
-WITNESS_GEOM = {"graph": "lognormal", "variant": 1, "n0": 4, "ops": [
+WITNESS_GEOM = {"graph": "lognormal", "variant": 1, "n0": 5, "ops": [
     {"op": "misc", "i": 1, "cdf": False, "pdf": False, "makes": False},
     {"op": "cond", "i": 1, "names": ["z"], "k": 0, "makes": True},
-    {"op": "sample", "i": 4, "N": 1, "seed": 1, "makes": False}]}
+    {"op": "sample", "i": 5, "N": 1, "seed": 1, "makes": False}]}
 
 
 def known_witnesses(ctx):
@@ -1138,6 +1187,32 @@ def fixed_plans(cuqi):
         {"op": "logd", "i": 8, "names": ["l", "x"], "k": 0, "makes": False},
         {"op": "logd", "i": 7, "names": ["x"], "k": 2, "makes": False},
     ]})
+    # staged conditioning of a three-argument callable (partial of a partial); forms graph: g3 is object 7
+    P.append({"graph": "forms", "variant": 0, "n0": 8, "ops": [
+        {"op": "cond", "i": 7, "names": ["a"], "k": 0, "makes": True},            # 8: c1 = g3(a)
+        {"op": "logd", "i": 8, "names": ["b", "c", "g3"], "k": 1, "makes": False},
+        {"op": "cond", "i": 8, "names": ["b"], "k": 1, "makes": True},            # 9: c2 = c1(b)
+        {"op": "cond", "i": 8, "names": ["b"], "k": 2, "makes": True},            # 10: sibling
+        {"op": "logd", "i": 8, "names": ["b", "c", "g3"], "k": 1, "makes": False},
+        {"op": "cond", "i": 9, "names": ["c"], "k": 0, "makes": True},            # 11
+        {"op": "logd", "i": 9, "names": ["c", "g3"], "k": 0, "makes": False},
+        {"op": "logd", "i": 11, "names": ["g3"], "k": 0, "makes": False},
+    ]})
+    # Lognormal with both parameters conditional: first evaluation through pdf, before and after other evaluations
+    P.append({"graph": "lognormal", "variant": 0, "n0": 5, "ops": [
+        {"op": "cond", "i": 4, "names": ["z", "w"], "k": 0, "makes": True},      # 5
+        {"op": "misc", "i": 5, "cdf": False, "pdf": True, "makes": False},
+        {"op": "logd", "i": 5, "names": ["L2"], "k": 0, "makes": False},
+        {"op": "cond", "i": 4, "names": ["z", "w"], "k": 1, "makes": True},      # 6
+        {"op": "logd", "i": 6, "names": ["L2"], "k": 0, "makes": False},
+        {"op": "misc", "i": 6, "cdf": False, "pdf": True, "makes": False},
+    ]})
+    # unnamed original outside any joint: conditioned before its name was ever looked up, then evaluated at its own parameter
+    P.append({"graph": "unnamed", "variant": 0, "n0": 4, "ops": [
+        {"op": "cond", "i": 3, "names": ["q"], "k": 0, "makes": True},            # 4
+        {"op": "cond", "i": 4, "names": ["u"], "k": 0, "makes": True},            # 5: EvaluatedDensity
+        {"op": "cond", "i": 3, "names": ["q", "u"], "k": 1, "makes": True},       # 6: EvaluatedDensity in one step
+    ]})
     # distribution conditioned, likelihood conditioned, names
     P.append({"graph": "hier", "variant": 1, "n0": 6, "ops": [
         {"op": "cond", "i": 3, "names": ["d"], "k": 0, "makes": True},           # 6 x|d
@@ -1162,14 +1237,14 @@ def fixed_plans(cuqi):
         {"op": "logd", "i": 6, "names": ["d", "l", "x"], "k": 1, "makes": False},
         {"op": "logd", "i": 5, "names": ["d", "l", "x", "y"], "k": 1, "makes": False},
     ]})
-    P.append({"graph": "lognormal", "variant": 0, "n0": 4, "ops": [
-        {"op": "cond", "i": 1, "names": ["z"], "k": 0, "makes": True},           # 4
-        {"op": "cond", "i": 1, "names": ["z"], "k": 1, "makes": True},           # 5
-        {"op": "logd", "i": 4, "names": ["L"], "k": 0, "makes": False},
+    P.append({"graph": "lognormal", "variant": 0, "n0": 5, "ops": [
+        {"op": "cond", "i": 1, "names": ["z"], "k": 0, "makes": True},           # 5
+        {"op": "cond", "i": 1, "names": ["z"], "k": 1, "makes": True},           # 6
         {"op": "logd", "i": 5, "names": ["L"], "k": 0, "makes": False},
-        {"op": "sample", "i": 4, "N": 1, "seed": 1, "makes": False},
+        {"op": "logd", "i": 6, "names": ["L"], "k": 0, "makes": False},
+        {"op": "sample", "i": 5, "N": 1, "seed": 1, "makes": False},
         {"op": "logd", "i": 1, "names": ["z", "L"], "k": 2, "makes": False},
-        {"op": "logd", "i": 4, "names": ["L"], "k": 0, "makes": False},
+        {"op": "logd", "i": 5, "names": ["L"], "k": 0, "makes": False},
     ]})
     return P
 
